@@ -18,7 +18,8 @@ RULE = ("generated signatures (positional-only, positional-or-keyword, *args, ke
         "include_result=False). Oracle: same outcome kind as the undecorated call (TypeError for rejected argument lists on both sides, "
         "body not run), the returned / raised object IS the body's object, exactly one action, start fields == "
         "inspect.signature(f).bind(...) with defaults minus self restricted to include_args, result on the successful end unless "
-        "include_result=False, default action_type module.qualname, __name__/__doc__/signature preserved. One call in five is made inside an action started with a logger object of its own: the "
+        "include_result=False, default action_type module.qualname, __name__/__doc__/signature preserved. Options are also passed positionally; bodies may return while an action they entered through a plain generator is still current; a fifth of "
+        "the calls happen while the caller handles another exception; include_args may name self. One call in five is made inside an action started with a logger object of its own: the "
         "call's action still reaches the registered destinations. non-trivial = signature with a "
         "special name, a non-plain parameter kind or an invalid argument list; distinct by (signature, options, argument-list shape)")
 ASSUMPTIONS = ["argument values are JSON-native so that tape copies compare by equality"]
